@@ -105,7 +105,13 @@ func init() {
 			if c18Par(shape) { // Commit: a multi-exponentiation over >= 128 points; BatchOpenSinglePoint: parallel folding
 				size = 128 << (shape & 1)
 			}
-			srs, err := kzg.NewSRS(uint64(size), r.bigBits(200))
+			alpha := r.bigBits(200)
+			if c18Par(shape) && which == 4 && shape&1 == 0 {
+				// long polynomials (the workers of the folding loop must run long enough to overlap) on the balanced SRS
+				// of NewSRS(size, -1), which costs nothing to build
+				size, alpha = 2048, big.NewInt(-1)
+			}
+			srs, err := kzg.NewSRS(uint64(size), alpha)
 			if err != nil {
 				panic(err)
 			}
@@ -114,6 +120,9 @@ func init() {
 				nb = 2
 			} else if shape > 3 {
 				nb = 1 + r.intn(4)
+			}
+			if c18Par(shape) && which == 4 { // the folding (parallel.Execute per polynomial) needs at least two polynomials
+				nb = 2 + r.intn(3)
 			}
 			polys := make([][]fr.Element, nb)
 			digests := make([]kzg.Digest, nb)
@@ -416,20 +425,24 @@ func init() {
 	reg("vector", func(r *rng, shape int) *c18Sess {
 		n := c18Pick(shape, 1, 0, 2, func() int { return 1 + r.intn(70) })
 		if c18Par(shape) { // AsyncReadFrom converts the elements on NumCPU goroutines
-			n = 1000 + 500*(shape&3) + r.intn(500)
+			n = 4000 + 1000*(shape&3) + r.intn(1000) // (long enough for the workers to overlap in time)
 		}
 		a, b, c := fr.Vector(rfrs(r, n)), fr.Vector(rfrs(r, n)), rfr(r)
 		s := &c18Sess{args: []c18Arg{{"a", &a}, {"b", &b}, {"c", &c}}}
 		s.call = func() string {
-			res := make(fr.Vector, n)
+			m := n
+			if c18Par(shape) { // (the element-wise operations have no parallel path: a prefix is enough)
+				m = 100
+			}
+			res := make(fr.Vector, m)
 			out := ""
-			res.Add(a, b)
+			res.Add(a[:m], b[:m])
 			out += deepHash(&res)
-			res.Sub(a, b)
+			res.Sub(a[:m], b[:m])
 			out += deepHash(&res)
-			res.Mul(a, b)
+			res.Mul(a[:m], b[:m])
 			out += deepHash(&res)
-			res.ScalarMul(a, &c)
+			res.ScalarMul(a[:m], &c)
 			out += deepHash(&res)
 			sum, ip := a.Sum(), a.InnerProduct(b)
 			// serialisation round trips (ReadFrom / AsyncReadFrom fill a fresh vector)
